@@ -34,14 +34,15 @@ func min[T constraints.Ordered](a, b T) T {
 	return b
 }
 
-func (p *Processor) NotifyRecharge(ueId string, rg int32) {
+// NotifyRecharge returns false when the subscriber is not known to the CHF.
+func (p *Processor) NotifyRecharge(ueId string, rg int32) bool {
 	var reauthorizationDetails []models.ReauthorizationDetails
 
 	self := chf_context.GetSelf()
 	ue, ok := self.ChfUeFindBySupi(ueId)
 	if !ok {
 		logger.NotifyEventLog.Errorf("Do not find charging data for UE: %s", ueId)
-		return
+		return false
 	}
 
 	// If it is previosly set to debit mode due to quota exhausted, need to reverse to the reserve mode
@@ -55,6 +56,7 @@ func (p *Processor) NotifyRecharge(ueId string, rg int32) {
 	}
 
 	p.SendChargingNotification(ue.NotifyUri, notifyRequest)
+	return true
 }
 
 func (p *Processor) SendChargingNotification(notifyUri string, notifyRequest models.ChargingNotifyRequest) {
